@@ -129,6 +129,25 @@ example : (genpaths escapeKey g16 3).map (fun e => e.path.comps) =
     [[s "out", s "d", s "a", s "m", s "f.txt"], [s "out", s "d", s "a%2Fm", s "f.txt"], [s "f.txt"]] := by decide
 example : (genpaths escapeKey gUp 1).map (fun e => e.path.comps) = [[s "out", s "d", s "..%2F..%2F..", s "f.txt"]] := by decide
 
+/-! #### the edge of `genpath_deterministic`: "the same configuration" means the same object graph -/
+
+/-- `T(a=leaf, b=leaf)` with one shared `Leaf` … -/
+def gShared : Graph := ⟨[{ gens := [(s "p", s "f.txt")] }, { args := [(s "a", .ref 0), (s "b", .ref 0)] }]⟩
+/-- … and `T(a=Leaf(), b=Leaf())` with two equal leaves: same content, same identifier, same job directory. -/
+def gTree : Graph := ⟨[{ gens := [(s "p", s "f.txt")] }, { gens := [(s "p", s "f.txt")] }, { args := [(s "a", .ref 0), (s "b", .ref 1)] }]⟩
+
+/-- **boundary (reported as an observation, not claimed by `genpath_deterministic`)**: paths are
+    attributes of objects, given at the first visit — two configurations with equal content but different
+    sharing generate different paths (`b.p` is `out/a/f.txt` in the first, `out/b/f.txt` in the second),
+    and so do two dicts that share a value under two keys inserted in a different order. -/
+theorem sharing_matters :
+    (genpaths id gShared 1).map (fun e => e.path.comps) = [[s "out", s "a", s "f.txt"]]
+    ∧ (genpaths id gTree 2).map (fun e => e.path.comps) = [[s "out", s "a", s "f.txt"], [s "out", s "b", s "f.txt"]]
+    ∧ (genpaths id ⟨[{ gens := [(s "p", s "f.txt")] }, { args := [(s "d", .dict [s "a", s "b"] [.ref 0, .ref 0])] }]⟩ 1).map
+        (fun e => e.path.comps) = [[s "out", s "d", s "a", s "f.txt"]]
+    ∧ (genpaths id ⟨[{ gens := [(s "p", s "f.txt")] }, { args := [(s "d", .dict [s "b", s "a"] [.ref 0, .ref 0])] }]⟩ 1).map
+        (fun e => e.path.comps) = [[s "out", s "d", s "b", s "f.txt"]] := by decide
+
 /-! #### non-vacuity -/
 
 /-- objects: 0 = shared leaf (two generated files), 1 = sealed sub-task (already submitted), 2 = pre-task,
